@@ -21,7 +21,11 @@ func fieldVal[T any](obj yobj, key string) (v T, ok bool, err error) {
 	}
 
 	if val == nil {
-		return v, true, nil
+		// A null object is the same as an absent one: there is nothing to
+		// read from it and writing into it would panic.
+		_, isObj := any(v).(yobj)
+
+		return v, !isObj, nil
 	}
 
 	v, ok = val.(T)
